@@ -1,8 +1,8 @@
 #!/verif/.venv/bin/python
 # Replay of a solver counterexample against the unmodified code (no shims).
-# property=C01 kernel=seqwf label=seqwf:scheduled_average_not_below_min_avg_amp
+# property=C01 kernel=seq label=seq:within_max_sequence_duration
 import sys
 sys.path[:0] = ['/repo' + "/pulser-core", '/repo' + "/pulser-simulation", "/verif"]
 from symx.replay import replay
-sys.exit(replay(check='checks.c01', kernel='seqwf', shape={'wf': 'blackman', 'd': 16, 'minavg': 16},
-                assignment={'min_avg_amp': '63/512', 'area': '1/512', 'det': 0}, label='seqwf:scheduled_average_not_below_min_avg_amp'))
+sys.exit(replay(check='checks.c01', kernel='seq', shape={'device': 'virt_maxseq', 'call': 'eom_drift', 'prior': True, 'rem': 0},
+                assignment={'dur/k': 969, 'amp': '1/64', 'det': -20000000000, 'buf#1.start': 0, 'buf#1.end': 0, 'buf#2.start': 0, 'buf#2.end': 1, 'buf#5.start': 0, 'buf#5.end': 0, 'buf#6.start': 0, 'buf#6.end': 2}, label='seq:within_max_sequence_duration'))
